@@ -318,6 +318,11 @@ func wsGen(r *rng, maxops int, w *bufio.Writer) {
 				g.deferredWindow()
 				continue
 			}
+			if r.intn(20) == 0 && !g.frag {
+				// the maximum is changed on the live stream (frames already queued by the peer are judged by the new value)
+				g.max = r.pick(g.max/2, g.max+9, 16, 125, 126, 1, 300)
+				fmt.Fprintf(w, "! setmax %d\n", g.max)
+			}
 			if r.intn(9) < 4 {
 				g.peerEvent()
 				if r.intn(3) != 0 {
